@@ -9,6 +9,9 @@ lines = ["T_%s == [][NotReset => %s_Step]_tvars" % (s, s) for s in steps]
 p = os.path.join(root, "spec", "TraceEco.tla")
 t = open(p).read()
 a, b = "\\* BEGIN GENERATED STEP WRAPPERS", "\\* END GENERATED STEP WRAPPERS"
-t = t[:t.index(a) + len(a)] + "\n" + "\n".join(lines) + "\n" + t[t.index(b):]
-open(p, "w").write(t)
+new = t[:t.index(a) + len(a)] + "\n" + "\n".join(lines) + "\n" + t[t.index(b):]
+if new != t:                      # checks may run concurrently: write only on change, atomically
+    tmp = p + ".tmp%d" % os.getpid()
+    open(tmp, "w").write(new)
+    os.replace(tmp, p)
 print(len(lines), "wrappers")
